@@ -2,6 +2,7 @@ package goatlang
 
 import (
 	"fmt"
+	"strings"
 	"text/scanner"
 
 	"golang.org/x/exp/slices"
@@ -94,6 +95,34 @@ func (p *parser) Expression(rbp int, mask ...string) *token {
 	return tok
 }
 
+// lineEnded reports whether Go's semicolon rule ends the statement between the previous
+// token and the current one: the current token starts a later line, and the last token of
+// the previous line is an identifier, a literal, one of break, continue, return, or one
+// of ++ -- ) ] }. What follows then starts the next statement ("x := y" and then
+// "(p).f()" is not the call y(p)), it is not an operator applied to what came before.
+func (p *parser) lineEnded() bool {
+	if p.N < 2 {
+		return false
+	}
+	prev := p.Tokens[p.N-2]
+	// a raw string may run over several lines: the line it ends on counts
+	if prev.Pos.Line+strings.Count(prev.Text, "\n") >= p.Token.Pos.Line {
+		return false
+	}
+	switch prev.Symbol {
+	case "(name)", "(int)", "(float)", "(char)", "(string)", ")", "]", "}", "++", "--", "break", "continue", "return":
+		return true
+	}
+	// predeclared identifiers (int, string, true, nil, iota, error ...) have symbols of
+	// their own; to Go they are identifiers like any other
+	switch prev.Symbol {
+	case "true", "false", "nil", "iota", "any", "error", "bool", "string", "float64", "make",
+		"int", "int8", "int16", "int32", "int64", "uint", "uint8", "uint16", "uint32", "uint64", "byte", "rune":
+		return true
+	}
+	return false
+}
+
 func (p *parser) doExpression(rbp int) *token {
 	t := p.Token
 	p.Next()
@@ -103,7 +132,7 @@ func (p *parser) doExpression(rbp int) *token {
 		// and is not an operator applied to a missing left operand
 		return nil
 	}
-	for rbp < getSymbol(p.Token).Lbp && !slices.Contains(p.mask, p.Token.Symbol) {
+	for rbp < getSymbol(p.Token).Lbp && !slices.Contains(p.mask, p.Token.Symbol) && !p.lineEnded() {
 		t = p.Token
 		p.Next()
 		left = getSymbol(t).Led(p, t, left)
